@@ -93,15 +93,8 @@ type world struct {
 
 func (w *world) logf(format string, a ...any) { w.o.Logf(format, a...) }
 
-// violate reports a failed oracle. Classes listed in privateKnown are candidate findings that the
-// lead has not classified yet: unless C11_STRICT is set they are counted as probes ("known:<class>")
-// so that the check keeps exiting 0, exactly like an entry of known_findings.json would.
+// violate reports a failed oracle.
 func (w *world) violate(class, format string, a ...any) {
-	if privateKnown[class] && !strict {
-		w.o.Probe("known:" + class)
-		w.logf("KNOWN-FINDING %s: %s", class, fmt.Sprintf(format, a...))
-		return
-	}
 	w.o.Violate(class, format, a...)
 	w.logf("VIOLATION %s: %s", class, fmt.Sprintf(format, a...))
 }
